@@ -150,7 +150,7 @@ def cases(enc):
                                   "instance-interleaved", "dumps-fresh",
                                   "dumps-default", "other-encoder-registers",
                                   "shared-decoder", "other-dialects-between",
-                                  "new-dumps-between"])})
+                                  "new-dumps-between", "dumps-options-between"])})
 
 
 def thaw_sets(x):
@@ -242,6 +242,23 @@ def run_case(case):
                     except (ValueError, TypeError):
                         pass
                 t = encoder.encode(m)
+            elif style == "dumps-options-between":
+                if call:
+                    # the same encoder object handed to pvl.dumps()/pvl.dump() together
+                    # with encoder options (which those functions document as meant for
+                    # the encoder they build themselves), between the calls
+                    import io
+                    for kw in (dict(indent=7, width=33), dict(aggregation_end=False),
+                               dict(end_delimiter=False, newline="\r\n"),
+                               dict(tab_replace=1, time_trailing_z=False,
+                                    symbol_single_quote=False, convert_group_to_object=False)):
+                        for other in [m] + unrelated[:1]:
+                            try:
+                                pvl.dumps(other, encoder=encoder, **kw)
+                                pvl.dump(other, io.StringIO(), encoder=encoder, **kw)
+                            except (ValueError, TypeError):
+                                pass
+                t = encoder.encode(m) if call != 1 else pvl.dumps(m, encoder=encoder)
             elif style == "new-dumps-between":
                 if call:
                     # the same encoder object is handed to pvl.new.dumps (and
@@ -391,7 +408,8 @@ def fresh_cases(acc, enc, n, seed):
 
         for spec in WRAPPED:
             for style in ("other-dialects-between", "instance-interleaved",
-                          "shared-decoder", "dumps-default", "new-dumps-between"):
+                          "shared-decoder", "dumps-default", "new-dumps-between",
+                          "dumps-options-between"):
                 for cfg in ({}, {"width": 40}):
                     one({"enc": enc, "cfg": cfg, "spec": spec, "style": style,
                          "others": [PROVOKERS[-3]], "iterval": None})
